@@ -2,7 +2,7 @@
 """Sensitivity runs: apply a patch to a scratch worktree of /repo, point a scratch copy of the
 simulator at it, run the named checks there, report which ones raise an alarm, clean up.
 
-  tools/mutant.py <name> <patch.diff> <ID>... [--tier quick|thorough] [--keep]
+  tools/mutant.py <name> <patch.diff> <ID>... [--tier quick|thorough] [--keep] [--base <commit>]
 
 Nothing is written into /repo or into /verif's evidence / replays (a copy of any replay file that a
 check produced is left under /tmp/rsv_mut/<name>.replays/ for inspection).
@@ -20,13 +20,18 @@ def main():
         tier = sys.argv[sys.argv.index("--tier") + 1]
         args.remove(tier)
     keep = "--keep" in sys.argv
+    base_commit = "HEAD"
+    if "--base" in sys.argv:
+        # apply the patch to an earlier tree of /repo (a change that cannot be rebased onto later fix: commits)
+        base_commit = sys.argv[sys.argv.index("--base") + 1]
+        args.remove(base_commit)
     name, patch, props = args[0], os.path.abspath(args[1]), args[2:]
     base = os.path.join(ROOT, name)
     shutil.rmtree(base, ignore_errors=True)
     os.makedirs(base)
     repo = os.path.join(base, "repo")
     subprocess.run(["git", "-C", "/repo", "worktree", "prune"], check=False)
-    subprocess.run(["git", "-C", "/repo", "worktree", "add", "--detach", "-f", repo, "HEAD"], check=True, stdout=subprocess.DEVNULL, stderr=subprocess.DEVNULL)
+    subprocess.run(["git", "-C", "/repo", "worktree", "add", "--detach", "-f", repo, base_commit], check=True, stdout=subprocess.DEVNULL, stderr=subprocess.DEVNULL)
     rc = 0
     try:
         r = subprocess.run(["git", "-C", repo, "apply", "--whitespace=nowarn", patch])
